@@ -1099,3 +1099,333 @@ func ruleIfaceEq(prog *Program, rep *Report, rels ...string) {
 		rep.Discharge("E-ifaceeq", rel, rel, fmt.Sprintf("%d comparisons of two any values, %d accepted", len(sites), acc))
 	}
 }
+
+// ---------------------------------------------------------------- M-flagconsist
+
+// matchFlagConsist: a function that calls one worker several times and passes a boolean literal in the same
+// argument position every time means one thing by it (MustRemoveOne: "stop after the first"); a call whose
+// literal differs from the others in the same function is a copy from the sibling entry.
+func matchFlagConsist(files []*ast.File, info *types.Info) (sites []synSite, examined int) {
+	for _, f := range files {
+		for _, d := range f.Decls {
+			fd, ok := d.(*ast.FuncDecl)
+			if !ok || fd.Body == nil {
+				continue
+			}
+			type use struct {
+				call *ast.CallExpr
+				val  string
+			}
+			byCallee := map[types.Object]map[int][]use{}
+			allLit := map[types.Object]map[int]bool{}
+			ast.Inspect(fd.Body, func(n ast.Node) bool {
+				call, ok := n.(*ast.CallExpr)
+				if !ok {
+					return true
+				}
+				var callee types.Object
+				switch fn := ast.Unparen(call.Fun).(type) {
+				case *ast.Ident:
+					callee = info.Uses[fn]
+				case *ast.SelectorExpr:
+					callee = info.Uses[fn.Sel]
+				}
+				if _, isFn := callee.(*types.Func); !isFn {
+					return true
+				}
+				for i, a := range call.Args {
+					lit := ""
+					if id, ok := ast.Unparen(a).(*ast.Ident); ok && (id.Name == "true" || id.Name == "false") {
+						if _, isConst := info.Uses[id].(*types.Const); isConst {
+							lit = id.Name
+						}
+					}
+					if byCallee[callee] == nil {
+						byCallee[callee] = map[int][]use{}
+						allLit[callee] = map[int]bool{}
+					}
+					if _, seen := allLit[callee][i]; !seen {
+						allLit[callee][i] = true
+					}
+					if lit == "" {
+						allLit[callee][i] = false
+						continue
+					}
+					byCallee[callee][i] = append(byCallee[callee][i], use{call, lit})
+				}
+				return true
+			})
+			for callee, pos := range byCallee {
+				for i, uses := range pos {
+					if len(uses) < 2 || !allLit[callee][i] {
+						continue
+					}
+					examined++
+					cnt := map[string]int{}
+					for _, u := range uses {
+						cnt[u.val]++
+					}
+					if len(cnt) < 2 {
+						continue
+					}
+					minor := "true"
+					if cnt["false"] < cnt["true"] {
+						minor = "false"
+					}
+					if cnt["true"] == cnt["false"] {
+						continue // no majority: a function that uses both meanings
+					}
+					for _, u := range uses {
+						if u.val == minor {
+							name := enclosingFuncName(f, fd.Pos())
+							sites = append(sites, synSite{pos: u.call.Pos(), file: f, key: fmt.Sprintf("%s:%s:arg%d=%s", name, callee.Name(), i, minor),
+								msg: fmt.Sprintf("%s passes %s as argument %d of %s here and %s in its %d other calls of %s", name, minor, i+1, callee.Name(), map[string]string{"true": "false", "false": "true"}[minor], len(uses)-cnt[minor], callee.Name())})
+						}
+					}
+				}
+			}
+		}
+	}
+	return
+}
+
+const fixtureFlagConsist = `package fixture
+
+func modify(data any, f func(any) any, one bool) any { return data }
+
+func removeOne(data any, k int) any {
+	switch k {
+	case 0:
+		return modify(data, nil, false)
+	case 1:
+		return modify(data, nil, true)
+	}
+	return modify(data, nil, true)
+}
+
+func remove(data any, k int) any {
+	if k == 0 {
+		return modify(data, nil, false)
+	}
+	return modify(data, nil, false)
+}
+`
+
+func ruleFlagConsist(prog *Program, rep *Report, floor int, rels ...string) {
+	rep.Rules = append(rep.Rules, "M-flagconsist: a function that calls one function three or more times with a boolean literal in the same argument position passes the same literal every time, or uses both equally often: the one call that differs was copied from the sibling entry ("+strings.Join(rels, ", ")+")")
+	runSynRule(prog, rep, "M-flagconsist", rels, matchFlagConsist, fixtureFlagConsist, 1, floor)
+}
+
+// ---------------------------------------------------------------- P-callorder
+
+// matchCallOrder: two functions of a package that are applied one to the result of the other (G(F(x)), or
+// v := F(x); v = G(v)) are applied in that order wherever both are applied: a copy that composes them the
+// other way round feeds the second the input the first was written for.
+func matchCallOrder(files []*ast.File, info *types.Info) (sites []synSite, examined int) {
+	type edge struct{ from, to *types.Func }
+	type at struct {
+		pos  token.Pos
+		file *ast.File
+	}
+	edges := map[edge][]at{}
+	pkgFunc := func(call *ast.CallExpr) *types.Func {
+		id, ok := ast.Unparen(call.Fun).(*ast.Ident)
+		if !ok {
+			return nil
+		}
+		fn, _ := info.Uses[id].(*types.Func)
+		if fn == nil || fn.Pkg() == nil || fn.Parent() != fn.Pkg().Scope() {
+			return nil
+		}
+		return fn
+	}
+	for _, f := range files {
+		for _, d := range f.Decls {
+			fd, ok := d.(*ast.FuncDecl)
+			if !ok || fd.Body == nil {
+				continue
+			}
+			record := func(call *ast.CallExpr, origin map[types.Object]*types.Func) {
+				g := pkgFunc(call)
+				if g == nil {
+					return
+				}
+				for _, a := range call.Args {
+					var from *types.Func
+					switch x := ast.Unparen(a).(type) {
+					case *ast.CallExpr:
+						from = pkgFunc(x)
+					case *ast.Ident:
+						from = origin[info.Uses[x]]
+					}
+					if from != nil && from != g {
+						edges[edge{from, g}] = append(edges[edge{from, g}], at{call.Pos(), f})
+					}
+				}
+			}
+			// origins flow along straight-line code only: a nested block starts from a copy, and what it assigns
+			// is unknown afterwards (a value set in one branch says nothing about the sibling branch)
+			var block func(list []ast.Stmt, origin map[types.Object]*types.Func)
+			exprs := func(n ast.Node, origin map[types.Object]*types.Func) {
+				if n == nil {
+					return
+				}
+				ast.Inspect(n, func(k ast.Node) bool {
+					switch x := k.(type) {
+					case *ast.FuncLit:
+						block(x.Body.List, map[types.Object]*types.Func{})
+						return false
+					case *ast.CallExpr:
+						record(x, origin)
+					}
+					return true
+				})
+			}
+			assigned := func(n ast.Node, origin map[types.Object]*types.Func) {
+				ast.Inspect(n, func(k ast.Node) bool {
+					if as, ok := k.(*ast.AssignStmt); ok {
+						for _, l := range as.Lhs {
+							if id, ok := l.(*ast.Ident); ok {
+								if o := info.Uses[id]; o != nil {
+									delete(origin, o)
+								}
+							}
+						}
+					}
+					return true
+				})
+			}
+			copyOf := func(m map[types.Object]*types.Func) map[types.Object]*types.Func {
+				c := map[types.Object]*types.Func{}
+				for k, v := range m {
+					c[k] = v
+				}
+				return c
+			}
+			block = func(list []ast.Stmt, origin map[types.Object]*types.Func) {
+				for _, st := range list {
+					switch x := st.(type) {
+					case *ast.AssignStmt:
+						for _, r := range x.Rhs {
+							exprs(r, origin)
+						}
+						if len(x.Lhs) == len(x.Rhs) {
+							for i, l := range x.Lhs {
+								id, ok := l.(*ast.Ident)
+								if !ok {
+									continue
+								}
+								o := info.Defs[id]
+								if o == nil {
+									o = info.Uses[id]
+								}
+								if o == nil {
+									continue
+								}
+								delete(origin, o)
+								if c, ok := ast.Unparen(x.Rhs[i]).(*ast.CallExpr); ok {
+									if fn := pkgFunc(c); fn != nil {
+										origin[o] = fn
+									}
+								}
+							}
+						} else {
+							assigned(x, origin)
+						}
+					case *ast.BlockStmt:
+						block(x.List, copyOf(origin))
+						assigned(x, origin)
+					case *ast.IfStmt:
+						if x.Init != nil {
+							block([]ast.Stmt{x.Init}, origin)
+						}
+						exprs(x.Cond, origin)
+						block(x.Body.List, copyOf(origin))
+						if x.Else != nil {
+							block([]ast.Stmt{x.Else}, copyOf(origin))
+						}
+						assigned(x, origin)
+					case *ast.ForStmt, *ast.RangeStmt, *ast.SwitchStmt, *ast.TypeSwitchStmt, *ast.SelectStmt:
+						assigned(x, origin) // a loop body may run after itself
+						var body *ast.BlockStmt
+						switch y := x.(type) {
+						case *ast.ForStmt:
+							body = y.Body
+						case *ast.RangeStmt:
+							exprs(y.X, origin)
+							body = y.Body
+						case *ast.SwitchStmt:
+							exprs(y.Tag, origin)
+							body = y.Body
+						case *ast.TypeSwitchStmt:
+							body = y.Body
+						case *ast.SelectStmt:
+							body = y.Body
+						}
+						for _, bs := range body.List {
+							switch c := bs.(type) {
+							case *ast.CaseClause:
+								block(c.Body, copyOf(origin))
+							case *ast.CommClause:
+								block(c.Body, copyOf(origin))
+							default:
+								block([]ast.Stmt{bs}, copyOf(origin))
+							}
+						}
+					case *ast.LabeledStmt:
+						block([]ast.Stmt{x.Stmt}, origin)
+					default:
+						exprs(st, origin)
+					}
+				}
+			}
+			block(fd.Body.List, map[types.Object]*types.Func{})
+		}
+	}
+	for e, ats := range edges {
+		examined++
+		rev := edges[edge{e.to, e.from}]
+		if len(rev) == 0 || len(rev) <= len(ats) {
+			// report the minority direction only (and, on a tie, both)
+			if len(rev) == 0 || len(rev) < len(ats) {
+				continue
+			}
+		}
+		for _, a := range ats {
+			name := enclosingFuncName(a.file, a.pos)
+			sites = append(sites, synSite{pos: a.pos, file: a.file, key: fmt.Sprintf("%s:%s-then-%s", name, e.from.Name(), e.to.Name()),
+				msg: fmt.Sprintf("%s applies %s to the result of %s; elsewhere in the package (%d places) %s is applied to the result of %s", name, e.to.Name(), e.from.Name(), len(rev), e.from.Name(), e.to.Name())})
+		}
+	}
+	return
+}
+
+const fixtureCallOrder = `package fixture
+
+type eq struct{ l, r *eq }
+
+func correct(e *eq) *eq { return e }
+func reduce(e *eq, p *eq) *eq { return e }
+func read() *eq { return nil }
+
+func a() *eq {
+	e := correct(read())
+	e = reduce(e, nil)
+	return e
+}
+
+func b() *eq {
+	return reduce(correct(read()), nil)
+}
+
+func c() *eq {
+	e := reduce(read(), nil)
+	e = correct(e)
+	return e
+}
+`
+
+func ruleCallOrder(prog *Program, rep *Report, floor int, rels ...string) {
+	rep.Rules = append(rep.Rules, "P-callorder: when two package-level functions are composed (one applied to the other's result, directly or through a local variable) they are composed in the same order everywhere in the package; the minority order is reported ("+strings.Join(rels, ", ")+")")
+	runSynRule(prog, rep, "P-callorder", rels, matchCallOrder, fixtureCallOrder, 1, floor)
+}
